@@ -5,9 +5,9 @@ import common as C
 import kincorr
 
 ID = "C02"
-COQ_TARGETS = ["Gen/Inverse.vo", "Exec/Finish.vo", "Proofs/CompleteK.vo", "Proofs/TwinK.vo", "Properties/C02.vo"]
+COQ_TARGETS = ["Gen/Inverse.vo", "Exec/Finish.vo", "Proofs/CompleteK.vo", "Proofs/TwinK.vo", "Proofs/DistinctP.vo", "Properties/C02.vo"]
 THEOREMS = ["C02_twin_in_table", "C02_twin_in_table_def", "C02_fk_twin", "C02_twin_distinct", "C02_kernel_sound",
-            "C02_rows_eq", "C02_table_complete", "C02_inverse_complete", "C02_complete_nonvacuous", "C02_kernel_twin_closed", "C02_candidate_fk"]
+            "C02_rows_eq", "C02_table_complete", "C02_inverse_complete", "C02_complete_nonvacuous", "C02_kernel_twin_closed", "C02_candidate_fk", "C02_rows_distinct"]
 LEVEL_TEXT = ("Coq theorems about the closed-form branch table of inverse_intern, RE-TRANSLATED from the source on every run (60+ lets, acos/"
               "atan2/sqrt, with the finiteness of every entry): branches 4..7 are entry by entry the wrist-flipped twins of branches 0..3 with "
               "the same finiteness; COMPLETENESS: for every geometry with a real forearm and upper arm, every sign/offset convention "
